@@ -8,6 +8,7 @@ from . import gen_res, gen_walk
 def strip_refs(s):
     """drop what depends on the layout: `@<off>:<len>` references and `<off>:<len>#` before a digest"""
     s = re.sub(r"@\d+:\d+", "", s)
+    s = re.sub(r"\bes=\d+:\d+", "es=", s)                 # the entry array of a group (icons / cursors)
     return re.sub(r"\d+:\d+#", "#", s)
 
 
@@ -19,7 +20,7 @@ def want(op):
 class C12(Prop):
     pid = "C12"
     title = "resource tree traversal, lookup and reassembly reflect the stored directory"
-    thm_modules = ["PeliteModel.Thm.C12"]
+    thm_modules = ["PeliteModel.Thm.C12", "PeliteModel.Thm.C12Find"]
     gens = [gen_res.gen_wellformed, gen_res.gen_corrupt, gen_res.gen_small, gen_walk.gen_shared_dag]
 
     def oracle(self, op, impl, model, spec):
